@@ -26,6 +26,7 @@ type PropertyConfig struct {
 	Bounded     []BoundedSpec `json:"bounded"`
 	ReplayFamily string  `json:"replay_family"`
 	Strings     string   `json:"strings"`
+	Derive      string   `json:"derive"`
 }
 
 type BoundedSpec struct {
@@ -208,6 +209,26 @@ func (r *checkRun) run() int {
 	if err := resolveGhosts(w); err != nil {
 		return r.fatalViolation("contracts", err.Error())
 	}
+	if r.cfg.Derive == "cypher-copy" {
+		info, err := deriveCopyContracts(w)
+		if err != nil {
+			return r.fatalViolation("derive", err.Error())
+		}
+		path := writeDerived(id, info)
+		cf, err := ParseContractFile(path, cypherModelPkg, info.Text)
+		if err != nil {
+			return r.fatalViolation("derive", err.Error())
+		}
+		w.addFile(cf)
+		if _, has := w.cfByPkg[cypherModelPkg]; !has {
+			w.cfByPkg[cypherModelPkg] = cf
+		}
+		w.copyBuiltin = true
+		w.derived = info
+		if len(w.loadErrs) > 0 {
+			return r.fatalViolation("derive", strings.Join(w.loadErrs, "; "))
+		}
+	}
 	contracts := selectContracts(w, r.cfg)
 	if len(contracts) == 0 {
 		return r.fatalViolation("contracts", "no function under contract found (vacuous check)")
@@ -223,6 +244,15 @@ func (r *checkRun) run() int {
 		rep := VerifyFunction(w, fn, fc)
 		if rep.Unsupported != "" {
 			rep.Obligations = append(rep.Obligations, &Obligation{Name: fc.Key + "#unsupported", Kind: "unsupported", Func: fc.Key, Result: "unsupported", Detail: rep.Unsupported})
+		}
+		r.reports = append(r.reports, rep)
+	}
+	if r.cfg.Derive == "cypher-copy" {
+		missing, arms := copyArmObligations(w)
+		rep := &FuncReport{Key: cypherModelPkg + ".Copy"}
+		rep.Obligations = append(rep.Obligations, &Obligation{Name: cypherModelPkg + ".Copy#derive.arms", Kind: "derive", Func: rep.Key, Result: "unsat", Solver: "structural", Src: fmt.Sprintf("%d type-switch arms cover every type with a copy() method and every model slice field type", arms)})
+		for _, m := range missing {
+			rep.Obligations = append(rep.Obligations, &Obligation{Name: cypherModelPkg + ".Copy#derive.arm.missing[" + m + "]", Kind: "derive", Func: rep.Key, Result: "missing", Detail: "Copy has no case for " + m + " (falls through to the panicking default)"})
 		}
 		r.reports = append(r.reports, rep)
 	}
